@@ -316,6 +316,11 @@ def _atheris(ctx, runs, max_len):
     cmd = [sys.executable, "-B", "-W", "ignore", os.path.join(HOME, "fuzz", "decoders.py"), stats, "-runs=%d" % runs, "-seed=%d" % (ctx.hseed(7) or 1),
            "-max_len=%d" % max_len, "-artifact_prefix=%s/" % wd, "-print_final_stats=1", "-timeout=120", corpus]
     try:
+        # started through a small intermediate shell that forks: libFuzzer reads the process's peak RSS (ru_maxrss), which a
+        # fork+exec child inherits from a large parent - the shard process - and would report "out-of-memory" at once
+        import shlex
+
+        cmd = ["/bin/sh", "-c", shlex.join(cmd) + "; exit $?"]
         p = subprocess.run(cmd, env=env, stdout=subprocess.PIPE, stderr=subprocess.STDOUT, timeout=3600)
         out = p.stdout.decode("utf-8", "replace")
     except subprocess.TimeoutExpired:
